@@ -448,15 +448,10 @@ class Message:
             raise ValueError("_append_request_block only works on requests.")
 
         block1 = next_block.opt.block1
-        if block1.more:
-            if len(next_block.payload) == block1.size:
-                pass
-            elif (
-                block1.size_exponent == 7 and len(next_block.payload) % block1.size == 0
-            ):
-                pass
-            else:
-                raise error.BadRequest("Payload size does not match Block1")
+        if not block1.is_valid_for_payload_size(len(next_block.payload)):
+            # a block with M=1 must fill its block size (BERT: a multiple of
+            # 1024), the final block must not exceed it
+            raise error.BadRequest("Payload size does not match Block1")
         if block1.start == len(self.payload):
             self.payload += next_block.payload
             self.opt.block1 = block1
